@@ -4,6 +4,7 @@
 package main
 
 import (
+	"runtime"
 	"bufio"
 	"encoding/json"
 	"flag"
@@ -250,22 +251,24 @@ func runScenario(tr *vh.Trace, sc int, s scen, controlled bool) {
 		}
 		stuck := false
 		for _, t := range s.Sched {
-			r := ctl.Step(t-1, 2*time.Second)
+			r := ctl.Step(t-1, 20*time.Second)
 			if r == "stuck" {
 				stuck = true
 				break
 			}
 		}
-		ok := ctl.FreeRun(3 * time.Second)
+		ok := ctl.FreeRun(60 * time.Second)
 		if stuck || !ok {
-			h.emit(vh.M{"op": "stuck"})
+			h.emit(vh.M{"op": "stuck", "stacks": stacks()})
+			stuckCount++
 		}
 	} else {
 		for ti, prog := range progs {
 			ctl.Go(ti, body(ti, prog))
 		}
-		if !ctl.FreeRun(5 * time.Second) {
-			h.emit(vh.M{"op": "stuck"})
+		if !ctl.FreeRun(60 * time.Second) {
+			h.emit(vh.M{"op": "stuck", "stacks": stacks()})
+			stuckCount++
 		}
 	}
 	// quiesce: a final sequential FlushAll by the main goroutine
@@ -286,6 +289,18 @@ func runScenario(tr *vh.Trace, sc int, s scen, controlled bool) {
 	tr.EmitBlock(h.evs)
 }
 
+var stuckCount int
+
+// stacks: where the goroutines stand when a scenario stalls (for the replay file; truncated)
+func stacks() string {
+	buf := make([]byte, 1<<16)
+	n := runtime.Stack(buf, true)
+	if n > 6000 {
+		n = 6000
+	}
+	return string(buf[:n])
+}
+
 func main() {
 	in := flag.String("scenarios", "", "ndjson: {progs, sched}")
 	out := flag.String("trace", "trace.ndjson", "trace output")
@@ -301,6 +316,9 @@ func main() {
 	sc := 0
 	seen := map[string]bool{}
 	for rd.Scan() {
+		if stuckCount >= 3 {
+			break // a stalled scenario costs more than a minute: three are evidence enough
+		}
 		var s scen
 		if err := json.Unmarshal(rd.Bytes(), &s); err != nil {
 			vh.Fatal("bad scenario", err)
